@@ -12,32 +12,32 @@ E2E = ('e2e', 1500, 40000)
 
 PROPS = {
     'C01': dict(
-        facts=['Totality', 'Calls'], keys=['C01'], tkeys=['T:pre', 'T:phase1', 'T:phase2-longestpath', 'T:layers', 'T:phase5', 'T:post', 'T:output', 'T:break', 'K:ordered', 'T:crossings', 'T:phase4-valign', 'T:phase4-packright', 'T:phase4-sinkcoloring', 'T:assignY', 'K:layersWF', 'K:sc-blockwidth', 'T:phase2-ns', 'T:ns-pivots', 'T:phase4-ns', 'T:phase3-wmedian', 'T:wmedian-logged', 'T:pipeline', 'K:edgesWF', 'K:adj', 'T:phase4-bk', 'K:breakWF'],
+        facts=['Totality', 'Calls', 'Translated'], keys=['C01'], tkeys=['T:pre', 'T:phase1', 'T:phase2-longestpath', 'T:layers', 'T:phase5', 'T:post', 'T:output', 'T:break', 'K:ordered', 'T:crossings', 'T:phase4-valign', 'T:phase4-packright', 'T:phase4-sinkcoloring', 'T:assignY', 'K:layersWF', 'K:sc-blockwidth', 'T:phase2-ns', 'T:ns-pivots', 'T:phase4-ns', 'T:phase3-wmedian', 'T:wmedian-logged', 'T:pipeline', 'K:edgesWF', 'K:adj', 'T:phase4-bk', 'K:breakWF'],
         suites=[('e2e', 2500, 60000), ('e2e-rand', 500, 10000), ('c12-deep', 4, 40), ('c01-paths', 16, 300), ('e2e-splines', 60, 3000), ('e2e-dec', 600, 20000), ('e2e-big', 8, 100), ('e2e-huge', 8, 100), ('e2e-wide', 2, 12)],
         partial=['C01_full: per-phase totality lemmas are proved on the algorithmic cores only (cycle test, greedy ranking, Kahn init, DFS components); WMedian, Brandes-Koepf, SinkColoring convergence, simplex pivots and Splines are covered by the watchdogged runs only'],
         assumptions=['heap, wall-clock and stack limits are observed by the worker watchdog, not proved']),
-    'C02': dict(facts=['Topo', 'Calls'], keys=['C02'], tkeys=['T:pre', 'T:phase1', 'T:phase5', 'T:post', 'T:output', 'T:break'], suites=[('e2e', 2500, 60000), ('c04', 500, 10000), ('e2e-big', 8, 100), ('e2e-dec', 400, 8000)], partial=[]),
-    'C03': dict(facts=['Calls', 'Numbers', 'Topo'], keys=['C03'], tkeys=['T:phase2-longestpath', 'T:layers', 'T:assignY', 'T:phase4-valign', 'T:phase4-packright', 'T:post', 'T:output', 'T:break', 'T:phase4-sinkcoloring', 'K:layersWF', 'T:phase2-ns', 'T:phase4-ns', 'T:phase4-bk'], suites=[('c03', 2500, 60000), ('e2e', 500, 10000), ('e2e-big', 8, 100)], partial=[]),
-    'C04': dict(facts=['Calls', 'Numbers'], keys=['C04', 'C09side'], tkeys=['T:phase4-valign', 'T:phase4-packright', 'T:output', 'T:phase4-sinkcoloring', 'K:layersWF', 'K:sc-blockwidth', 'K:layered', 'T:phase4-ns'], suites=[('c04', 2500, 60000), ('e2e', 500, 10000), ('e2e-big', 8, 100)], partial=[]),
-    'C05': dict(facts=['Calls', 'Numbers'], keys=['C05'], tkeys=['T:phase5', 'T:post', 'T:output', 'T:break'], suites=[('c05', 2500, 60000), ('e2e', 500, 10000), ('e2e-big', 8, 100), ('e2e-huge', 8, 100), ('e2e-wide', 2, 12)], partial=[]),
-    'C06': dict(facts=['Calls', 'Numbers'], keys=['C06'], tkeys=['T:phase5', 'T:output', 'T:break'], suites=[('c06', 2500, 60000), ('e2e', 500, 10000), ('e2e-big', 8, 100)], partial=[]),
+    'C02': dict(facts=['Topo', 'Calls', 'Translated'], keys=['C02'], tkeys=['T:pre', 'T:phase1', 'T:phase5', 'T:post', 'T:output', 'T:break'], suites=[('e2e', 2500, 60000), ('c04', 500, 10000), ('e2e-big', 8, 100), ('e2e-dec', 400, 8000)], partial=[]),
+    'C03': dict(facts=['Calls', 'Numbers', 'Topo', 'Translated'], keys=['C03'], tkeys=['T:phase2-longestpath', 'T:layers', 'T:assignY', 'T:phase4-valign', 'T:phase4-packright', 'T:post', 'T:output', 'T:break', 'T:phase4-sinkcoloring', 'K:layersWF', 'T:phase2-ns', 'T:phase4-ns', 'T:phase4-bk'], suites=[('c03', 2500, 60000), ('e2e', 500, 10000), ('e2e-big', 8, 100)], partial=[]),
+    'C04': dict(facts=['Calls', 'Numbers', 'Translated'], keys=['C04', 'C09side'], tkeys=['T:phase4-valign', 'T:phase4-packright', 'T:output', 'T:phase4-sinkcoloring', 'K:layersWF', 'K:sc-blockwidth', 'K:layered', 'T:phase4-ns'], suites=[('c04', 2500, 60000), ('e2e', 500, 10000), ('e2e-big', 8, 100)], partial=[]),
+    'C05': dict(facts=['Calls', 'Numbers', 'Translated'], keys=['C05'], tkeys=['T:phase5', 'T:post', 'T:output', 'T:break'], suites=[('c05', 2500, 60000), ('e2e', 500, 10000), ('e2e-big', 8, 100), ('e2e-huge', 8, 100), ('e2e-wide', 2, 12)], partial=[]),
+    'C06': dict(facts=['Calls', 'Numbers', 'Translated'], keys=['C06'], tkeys=['T:phase5', 'T:output', 'T:break'], suites=[('c06', 2500, 60000), ('e2e', 500, 10000), ('e2e-big', 8, 100)], partial=[]),
     'C07': dict(facts=['Maps', 'Shared', 'Calls'], keys=['C07rep', 'C07input', 'C07fresh'], tkeys=['T:phase2-ns', 'T:phase4-sinkcoloring'], suites=[('e2e', 2500, 60000), ('e2e-big', 8, 100), ('e2e-dec', 400, 8000)],
                 fresh_process=True, partial=[]),
     'C08': dict(facts=['Ids', 'Calls'], keys=['C08'], tkeys=['T:pre', 'T:break', 'T:phase4-ns', 'T:output'], suites=[('rename', 2000, 50000), ('e2e', 600, 10000)], partial=[]),
     'C09': dict(facts=['Shared', 'Calls'], keys=['C09', 'C09side'],
                 tkeys=['T:pre', 'T:output', 'T:phase5', 'T:post', 'T:phase2-ns', 'T:ns-pivots', 'K:c09-pre'],
                 suites=[('union', 1500, 40000), ('union-dec', 600, 15000), ('union-many', 8, 100), ('union-big', 8, 100), ('e2e', 800, 10000)], partial=[]),
-    'C10': dict(facts=['Calls'], keys=['C10'], tkeys=['K:ns-certificate', 'T:layers', 'T:phase2-ns', 'T:ns-pivots'], suites=[('c10', 4000, 80000), ('c10-big', 12, 200)], partial=[]),
+    'C10': dict(facts=['Calls', 'Translated'], keys=['C10'], tkeys=['K:ns-certificate', 'T:layers', 'T:phase2-ns', 'T:ns-pivots'], suites=[('c10', 4000, 80000), ('c10-big', 12, 200)], partial=[]),
     'C11': dict(facts=['Calls'], keys=['C11'], tkeys=['T:phase2-longestpath', 'T:layers'], suites=[('c11', 2000, 50000), ('c11-deep', 8, 120)], partial=[]),
-    'C12': dict(facts=['Calls'], keys=['C12'], tkeys=['T:crossings', 'K:ordered', 'T:break', 'T:phase4-sinkcoloring', 'T:phase4-valign', 'T:phase4-packright', 'T:phase5', 'T:output', 'T:phase4-ns'], suites=[('c12', 2000, 50000), ('c12-deep', 6, 60), ('e2e-big', 8, 100)], partial=[]),
-    'C13': dict(facts=['Calls'], keys=['C13'],
+    'C12': dict(facts=['Calls', 'Translated'], keys=['C12'], tkeys=['T:crossings', 'K:ordered', 'T:break', 'T:phase4-sinkcoloring', 'T:phase4-valign', 'T:phase4-packright', 'T:phase5', 'T:output', 'T:phase4-ns'], suites=[('c12', 2000, 50000), ('c12-deep', 6, 60), ('e2e-big', 8, 100)], partial=[]),
+    'C13': dict(facts=['Calls', 'Translated'], keys=['C13'],
                 tkeys=['T:crossings', 'K:ordered', 'T:break', 'T:phase3-wmedian', 'T:wmedian-logged', 'T:phase4-sinkcoloring',
                        'T:phase4-valign', 'T:phase4-packright', 'T:phase4-ns', 'T:phase5', 'T:output'],
                 suites=[('c13', 2000, 50000), ('c13-big', 12, 200)], partial=[]),
     'C14': dict(facts=['Calls'], keys=['C14', 'C14acyclic'], tkeys=['T:phase1', 'K:adj'], suites=[('c14', 2500, 60000)], partial=[]),
     'C15': dict(facts=['Shared'], keys=['C15conc'], race_suites=['concurrent'], tkeys=['T:monitor'], suites=[('concurrent', 40, 600), ('monitor', 1000, 20000)], partial=[]),
     'C16': dict(facts=['Calls', 'Numbers'], keys=['C16'], tkeys=['T:phase4-valign', 'T:phase4-packright', 'T:output', 'K:layersWF', 'T:pre'], suites=[('c16', 2500, 60000), ('e2e-big', 8, 100)], partial=[]),
-    'C17': dict(facts=['Numbers', 'Calls'], keys=['C17'], tkeys=['T:phase4-valign', 'T:phase4-packright', 'T:phase4-sinkcoloring', 'T:assignY', 'T:phase5', 'T:output', 'T:phase4-bk', 'T:pipeline-sizes'], suites=[('scale', 2000, 50000), ('e2e', 800, 10000)], partial=[]),
+    'C17': dict(facts=['Numbers', 'Calls', 'Translated'], keys=['C17'], tkeys=['T:phase4-valign', 'T:phase4-packright', 'T:phase4-sinkcoloring', 'T:assignY', 'T:phase5', 'T:output', 'T:phase4-bk', 'T:pipeline-sizes'], suites=[('scale', 2000, 50000), ('e2e', 800, 10000)], partial=[]),
     'C18': dict(facts=['Shared'], keys=['C18own', 'C18same', 'C18nonvacuous'], tkeys=['T:monitor'],
                 suites=[('history', 1500, 30000), ('monitor', 1000, 20000), ('e2e', 1000, 30000), ('c18bk', 1500, 30000), ('e2e-dec', 400, 8000)], partial=[]),
     'C19': dict(facts=['Geom'], keys=['C19'], tkeys=[], suites=[('c19', 3000, 100000), ('c19-a', 2000, 100000), ('c19-long', 300, 6000)],
